@@ -137,7 +137,7 @@ def bpseq_item(out, item, rep):
         emit(out, iid, "without_isolated@" + solver_name, rep, str(bp.without_isolated()), has_pairs)
 
 
-def tool_item(out, item, rep, tmpdir):
+def tool_item(out, item, rep, tmpdir, nontrivial=None):
     """One of the package's command-line tools run in-process: stdout plus every file it wrote."""
     import importlib
     import shutil
@@ -161,7 +161,7 @@ def tool_item(out, item, rep, tmpdir):
     finally:
         sys.argv = old
     text = buf.getvalue().replace(outdir, "<out>")
-    emit(out, item["id"], "tool_stdout", rep, status + "\n" + text, len(text) > 0)
+    emit(out, item["id"], "tool_stdout", rep, status + "\n" + text, len(text) > 0 if nontrivial is None else nontrivial)
     files = []
     for root, _, names in sorted(os.walk(outdir)):
         for n in sorted(names):
@@ -173,6 +173,107 @@ def tool_item(out, item, rep, tmpdir):
         blob.append(os.path.relpath(f, outdir).encode() + b"\n" + data.replace(outdir.encode(), b"<out>") + b"\n")
     emit(out, item["id"], "tool_files", rep, b"".join(blob), len(files) > 0)
     shutil.rmtree(outdir, ignore_errors=True)
+
+
+COMPLEMENT = {"A": "U", "U": "AG", "C": "G", "G": "CU", "T": "A"}
+NONCANONICAL = ["tWW", "cWH", "cHW", "tHW", "tWH", "cSS", "tSH", "tHS", "cHS", "cWS", "tHH", "ncWW", "cWWa", "ncSs"]
+
+
+def adapter_gen_item(out, item, rep, tmpdir):
+    """`adapter` on a corpus structure with a *generated* external annotation (FR3D format): helices, extra
+    non-canonical pairs and - the point - residues annotated with two or three canonical pairs at once, some of
+    equal rank (same partner letter), so that Mapping2D3D's conflict resolution and multiplet handling have ties
+    to break.  The annotation text is a pure function of item['gen_seed'] and the residue list of the file."""
+    import random
+
+    from rnapolis import adapter, parser
+    from rnapolis.util import handle_input_file
+
+    with handle_input_file(item["path"]) as fh:
+        structure3d = parser.read_3d_structure(fh, None)
+    nts = [r for r in structure3d.residues if r.is_nucleotide and r.auth is not None]
+    rnd = random.Random(item["gen_seed"])
+    n = len(nts)
+
+    def uid(r):
+        base = "XXXX|1|%s|%s|%d" % (r.auth.chain, r.auth.name, r.auth.number)
+        if r.auth.icode:
+            base += "|||%s" % r.auth.icode
+        return base
+
+    def letter(k):
+        return nts[k].one_letter_name.upper()
+
+    def partners(k, same_as=None):
+        want = COMPLEMENT.get(letter(k), "")
+        cands = [m for m in range(n) if m != k and letter(m) in want]
+        if same_as is not None:
+            same = [m for m in cands if letter(m) == letter(same_as) and m != same_as]
+            if same:
+                return same
+        return cands
+
+    pairs = []  # (a, b, class)
+    if n >= 4:
+        for _ in range(rnd.randint(1, 4)):
+            i = rnd.randrange(0, n - 3)
+            j = rnd.randrange(i + 3, n)
+            length = rnd.randint(1, 5)
+            for t in range(length):
+                if i + t + 2 < j - t:
+                    pairs.append((i + t, j - t, "cWW"))
+        for _ in range(rnd.randint(2, 8)):
+            a = rnd.randrange(n)
+            cands = partners(a)
+            if cands:
+                pairs.append((a, rnd.choice(cands), "cWW"))
+        for _ in range(rnd.randint(0, 6)):
+            a, b = rnd.randrange(n), rnd.randrange(n)
+            if a != b:
+                pairs.append((a, b, rnd.choice(NONCANONICAL)))
+        # conflicts: a residue that already has a canonical partner gets another one, preferably of the same letter
+        for _ in range(rnd.randint(2, 6)):
+            cww = [p for p in pairs if p[2] == "cWW"]
+            if not cww:
+                break
+            a, b, _c = rnd.choice(cww)
+            if rnd.random() < 0.5:
+                a, b = b, a
+            cands = partners(a, same_as=b if rnd.random() < 0.75 else None)
+            if cands:
+                pairs.append((a, rnd.choice(cands), "cWW"))
+    lines = []
+    for a, b, cls in pairs:
+        lines.append("%s\t%s\t%s\t0" % (uid(nts[a]), cls, uid(nts[b])))
+        if rnd.random() < 0.7:
+            rev = cls
+            if len(cls) == 3:
+                rev = cls[0] + cls[2] + cls[1]
+            lines.append("%s\t%s\t%s\t0" % (uid(nts[b]), rev, uid(nts[a])))
+    for k in range(n - 1):
+        if rnd.random() < 0.5:
+            cls = rnd.choice(["s35", "s53", "s33", "s55"])
+            lines.append("%s\t%s\t%s\t0" % (uid(nts[k]), cls, uid(nts[k + 1])))
+            if rnd.random() < 0.6:
+                lines.append("%s\t%s\t%s\t0" % (uid(nts[k + 1]), cls[0] + cls[2] + cls[1], uid(nts[k])))
+    for _ in range(rnd.randint(0, 4)):
+        a, b = rnd.randrange(n), rnd.randrange(n)
+        if a != b:
+            lines.append("%s\t%s\t%s\t0" % (uid(nts[a]), rnd.choice(["0BPh", "7BPh", "4BPh", "0BR", "2BR"]), uid(nts[b])))
+    rnd.shuffle(lines)
+    text = "\n".join(lines) + "\n"
+    ext = os.path.join(tmpdir, "generated-fr3d.txt")
+    with open(ext, "w") as f:
+        f.write(text)
+    emit(out, item["id"], "generated_annotation", rep, text, False)
+    argv = ["adapter", item["path"], "--external", ext, "--tool", "fr3d"]
+    if item.get("find_gaps"):
+        argv.append("-f")
+    if item.get("flag", "-a"):
+        argv.append(item.get("flag", "-a"))
+    argv += ["--csv", "{out}/o.csv", "--json", "{out}/o.json", "--bpseq", "{out}/o.bpseq",
+             "--inter-stem-csv", "{out}/inter.csv", "--stems-csv", "{out}/stems.csv"]
+    tool_item(out, {"id": item["id"], "module": "rnapolis.adapter", "argv": argv}, rep, tmpdir, nontrivial=len(pairs) > 0)
 
 
 def main():
@@ -211,6 +312,8 @@ def main():
                         file_item(out, item, rep, tmpdir)
                     elif item["type"] == "tool":
                         tool_item(out, item, rep, tmpdir)
+                    elif item["type"] == "adapter_gen":
+                        adapter_gen_item(out, item, rep, tmpdir)
                     else:
                         bpseq_item(out, item, rep)
                 except Exception as e:  # noqa: BLE001 - an exception is an output too, and must be the same everywhere
